@@ -633,6 +633,13 @@ def r16_4(chk, mol, xyz):
             ia = obj_init(e.value).as_atom()
             if ia and ia[0] == "ite" and seq_items(obj_init(ia[2])) is not None and seq_items(obj_init(ia[3])) == ():
                 init = obj_init(ia[2])
+    if init is None:
+        # lines = []; if header: lines.append(count); lines.append(comment)   - the header lines appended one by one under the switch
+        hp = [p_ for p_ in ev.param_names if p_ == "header"]
+        happ = [e for e in ev.events if e.kind == "call" and e.target is not None and e.target.key().endswith(".append") and not e.loops
+                and e.extra.get("args") and e.guards and e.guards[-1][1] and hp and e.guards[-1][0].key() == hp[0]]
+        if happ and len({e.target.key() for e in happ}) == 1 and line is not None and line.target.key().rsplit(".", 1)[0] == happ[0].target.key().rsplit(".", 1)[0]:
+            init = P.atom(("tuple", tuple(e.extra["args"][0] for e in happ)))
     nh = len(seq_items(init)) if init is not None and seq_items(init) is not None else None
     first_is_count = False
     if nh:
